@@ -268,6 +268,24 @@ def opCOLL (_args res : List String) : Findings :=
   | some k => #[fO "coll" s!"{k} hash collisions among {(field? res "distinct").getD "?"} distinct positions"]
   | none => #[⟨'E', "parse", "COLL"⟩]
 
+/-! ### SPECPERFT: sanity test of the specification itself against published perft numbers
+(labelled a test: it supports the reading of `Spec.Rules`, it proves nothing) -/
+
+partial def specPerft (p : Pos) : Nat → Nat
+  | 0 => 1
+  | 1 => (legalMoves (memo p)).length
+  | n+1 => ((legalMoves (memo p)).map fun m => specPerft (norm (apply (memo p) m)) n).sum
+
+def opSPECPERFT (args _res : List String) : Findings :=
+  match args[0]?.bind text?, args[1]?.bind String.toNat?, args[2]?.bind String.toNat? with
+  | some fen, some depth, some expected =>
+    match Fen.decode fen with
+    | none => #[⟨'E', "parse", "SPECPERFT: FEN not decodable by the spec grammar"⟩]
+    | some p =>
+      let n := specPerft p depth
+      if n == expected then #[] else #[fO "specperft" s!"spec perft({depth}) = {n}, published {expected}"]
+  | _, _, _ => #[⟨'E', "parse", "SPECPERFT args"⟩]
+
 /-! ### dispatch -/
 
 def processLine (line : String) : Findings :=
@@ -316,6 +334,7 @@ def processLine (line : String) : Findings :=
       | "SYM" => opSYM args r
       | "VAR" => opVAR args r
       | "COLL" => opCOLL args r
+      | "SPECPERFT" => opSPECPERFT args r
       | _ => #[⟨'E', "parse", s!"unknown op {op}"⟩]
   | _ => if line.trimAscii.isEmpty then #[] else #[⟨'E', "parse", "no ' => ' separator"⟩]
 
